@@ -28,6 +28,9 @@ type logged struct {
 	// (partial write, then EFBIG).
 	failAt, calls int
 	failBytes     uint64
+	// deferAll: answer every proposal with Defer during this session (a station that is busy now and
+	// wants the traffic later).
+	deferAll bool
 }
 
 func (l *logged) ProcessInbound(msgs ...*fbb.Message) error {
@@ -67,6 +70,9 @@ func (l *logged) SetDeferred(mid string) {
 
 func (l *logged) GetInboundAnswer(p fbb.Proposal) fbb.ProposalAnswer {
 	a := l.MBoxHandler.GetInboundAnswer(p)
+	if l.deferAll && a == fbb.Accept {
+		a = fbb.Defer
+	}
 	l.lg.Add(mem.Event{Station: l.name, Kind: mem.EvGetInboundAns, MID: p.MID(), Answer: string(rune(a))})
 	return a
 }
@@ -76,6 +82,11 @@ type dirWorld struct {
 	sc         *b2fx.Scenario
 	lg         *mem.Log
 	dirA, dirB string
+	// reuse: the two DirHandler values live as long as the world (a long-running station keeps its
+	// handler across sessions) instead of being created afresh for every session.
+	reuse    bool
+	hA, hB   fbb.MBoxHandler
+	deferAll bool // this session: station B defers everything
 }
 
 func newDirWorld(sc *b2fx.Scenario) (*dirWorld, error) {
@@ -106,8 +117,11 @@ func (w *dirWorld) close() { os.RemoveAll(w.dirA); os.RemoveAll(w.dirB) }
 // session runs one session on fresh DirHandler instances (a restart between sessions, as a real
 // program would do). failSide/failAt/failBytes select a genuine storage error.
 func (w *dirWorld) session(plan vpipe.Plan, failSide string, failAt int, failBytes uint64) b2fx.Result {
-	la := &logged{MBoxHandler: mailbox.NewDirHandler(w.dirA, false), name: "A", lg: w.lg}
-	lb := &logged{MBoxHandler: mailbox.NewDirHandler(w.dirB, false), name: "B", lg: w.lg}
+	if w.hA == nil || !w.reuse {
+		w.hA, w.hB = mailbox.NewDirHandler(w.dirA, false), mailbox.NewDirHandler(w.dirB, false)
+	}
+	la := &logged{MBoxHandler: w.hA, name: "A", lg: w.lg}
+	lb := &logged{MBoxHandler: w.hB, name: "B", lg: w.lg, deferAll: w.deferAll}
 	if failSide == "A" {
 		la.failAt, la.failBytes = failAt, failBytes
 	} else if failSide == "B" {
@@ -239,6 +253,25 @@ func runDir(o *vrt.Obs, p params) {
 			o.Sig("dir s%d d%d k%d %v", p.Scenario, d, k, silent)
 		}
 	}
+	if p.Shard == 1 {
+		// long-running stations (the same DirHandler values for every session of the history): a
+		// first session in which station B defers everything, optionally cut, then clean sessions
+		for _, cutFrac := range []int64{-1, 2, 1} {
+			what := fmt.Sprintf("directory mailboxes, scenario %d, handlers reused across sessions, first session: B defers everything (cut fraction 1/%d)", p.Scenario, cutFrac)
+			one(what, func(w *dirWorld) b2fx.Result {
+				w.reuse, w.deferAll = true, true
+				pl := vpipe.Plan{CutDir: vpipe.NoCut}
+				if cutFrac > 0 {
+					pl = vpipe.Plan{CutDir: 0, CutAt: n[0] / cutFrac, CutSilent: true}
+				}
+				res := w.session(pl, "", 0, 0)
+				w.deferAll = false
+				return res
+			})
+			o.Count("dir_reused_handler_histories", 1)
+			o.Sig("dir s%d reuse %d", p.Scenario, cutFrac)
+		}
+	}
 	if p.Shard == 0 {
 		for _, side := range []string{"A", "B"} {
 			nin := len(sc.MsgsB)
@@ -248,7 +281,9 @@ func runDir(o *vrt.Obs, p params) {
 			for j := 1; j <= nin; j++ {
 				for _, fb := range []uint64{0, 1, 40, 200} {
 					what := fmt.Sprintf("directory mailboxes, scenario %d, ProcessInbound #%d at station %s hits a file-size limit of %d bytes", p.Scenario, j, side, fb)
-					one(what, func(w *dirWorld) b2fx.Result { return w.session(vpipe.Plan{CutDir: vpipe.NoCut}, side, j, fb) })
+					one(what, func(w *dirWorld) b2fx.Result {
+						return w.session(vpipe.Plan{CutDir: vpipe.NoCut, Capacity: []int{0, 1, 64}[(j+int(fb))%3]}, side, j, fb)
+					})
 					o.Count("dir_storage_errors_injected", 1)
 					o.Sig("dir s%d fail %s j%d b%d", p.Scenario, side, j, fb)
 				}
